@@ -320,8 +320,59 @@ fn roles(req: &Value) -> Value {
     json!({"results": out})
 }
 
+/// Calibrations::get_match_for_gate / get_match_for_measurement for each query instruction against the program's calibrations.
+fn calibration_match(req: &Value) -> Value {
+    let program = match Program::from_str(req["program"].as_str().unwrap()) {
+        Ok(p) => p,
+        Err(e) => return json!({"input_error": format!("{e:?}")}),
+    };
+    let listing = program.calibrations.to_instructions();
+    let mut out = vec![];
+    for t in req["queries"].as_array().unwrap() {
+        let ins = match parse_instructions(t.as_str().unwrap()) {
+            Ok(v) if v.len() == 1 => v.into_iter().next().unwrap(),
+            Ok(v) => return json!({"input_error": format!("{} instructions", v.len())}),
+            Err(e) => return json!({"input_error": e}),
+        };
+        match &ins {
+            Instruction::Gate(g) => out.push(json!({"query": dbg(&ins), "match": dbg(&program.calibrations.get_match_for_gate(g))})),
+            Instruction::Measurement(m) => out.push(json!({"query": dbg(&ins), "match": dbg(&program.calibrations.get_match_for_measurement(m))})),
+            _ => return json!({"input_error": "query is neither gate nor measurement"}),
+        }
+    }
+    json!({"calibrations": listing.iter().map(dbg).collect::<Vec<_>>(), "results": out})
+}
+
+/// Program::expand_calibrations and expand_calibrations_with_source_map (+ source-map queries).
+fn expand_calibrations(req: &Value) -> Value {
+    use quil_rs::program::InstructionIndex;
+    let program = match Program::from_str(req["program"].as_str().unwrap()) {
+        Ok(p) => p,
+        Err(e) => return json!({"input_error": format!("{e:?}")}),
+    };
+    let source_body: Vec<Value> = program.body_instructions().map(dbg).collect();
+    let plain = match program.expand_calibrations() {
+        Ok(p) => json!({"ok": {"body": p.body_instructions().map(dbg).collect::<Vec<_>>(), "listing": listing(&p.to_instructions())}}),
+        Err(e) => json!({"err": format!("{e:?}")}),
+    };
+    let mapped = match program.expand_calibrations_with_source_map() {
+        Ok((p, sm)) => {
+            let n_out = p.body_instructions().count();
+            let n_src = program.body_instructions().count();
+            let sources: Vec<Value> = (0..n_out).map(|t| dbg(&sm.list_sources(&InstructionIndex(t)))).collect();
+            let targets: Vec<Value> = (0..n_src).map(|s| dbg(&sm.list_targets(&InstructionIndex(s)))).collect();
+            json!({"ok": {"body": p.body_instructions().map(dbg).collect::<Vec<_>>(), "listing": listing(&p.to_instructions()),
+                          "source_map": dbg(&sm), "list_sources": sources, "list_targets": targets}})
+        }
+        Err(e) => json!({"err": format!("{e:?}")}),
+    };
+    json!({"source_body": source_body, "plain": plain, "mapped": mapped})
+}
+
 pub fn run(op: &str, req: &Value) -> Value {
     match op {
+        "expand_calibrations" => expand_calibrations(req),
+        "calibration_match" => calibration_match(req),
         "roles" => roles(req),
         "schedule_graph" => schedule_graph(req),
         "extern_signature_map" => extern_signature_map(req),
